@@ -16,10 +16,11 @@ var errBodyRead = errors.New("body read failure (injected)")
 // failingBody delivers data in fragments of at most frag bytes and fails with
 // errBodyRead once failAt bytes have been delivered (failAt < 0: never).
 type failingBody struct {
-	data   []byte
-	pos    int
-	frag   int
-	failAt int
+	data    []byte
+	pos     int
+	frag    int
+	failAt  int
+	eofWith bool // the final bytes arrive together with io.EOF (as net/http's body does)
 }
 
 func (f *failingBody) Read(p []byte) (int, error) {
@@ -44,6 +45,9 @@ func (f *failingBody) Read(p []byte) (int, error) {
 	}
 	copy(p, f.data[f.pos:f.pos+n])
 	f.pos += n
+	if f.eofWith && f.pos >= len(f.data) && (f.failAt < 0 || f.failAt > len(f.data)) {
+		return n, io.EOF
+	}
 	return n, nil
 }
 
@@ -115,7 +119,7 @@ func c08Scenario(kind int) {
 	if !lite {
 		frag = 1 + vsym.Choice("frag", 2)
 	}
-	rd := &failingBody{data: body, frag: frag, failAt: failAt}
+	rd := &failingBody{data: body, frag: frag, failAt: failAt, eofWith: vsym.Choice("eofwith", 2) == 1}
 
 	hdr := http.Header{"Content-Type": {"new/type"}, "X-Amz-Meta-A": {"new"}}
 	md5kind := vsym.Choice("md5", 5)
